@@ -563,7 +563,8 @@ impl<E: Effect, R: CommandReceiver<E>, S: EventSender<E>> Worker<E, R, S> {
 
         // This is (at the latest) the answer to the awaiter's initial query: its select may scan
         // its sources from now on.
-        self.executor.initial_await_answered(awaiter);
+        let answered: Vec<ProcessId> = results.keys().copied().collect();
+        self.executor.initial_await_answered(awaiter, &answered);
 
         // Process each result and update awaiter
         for (awaited, result_opt) in results {
